@@ -867,7 +867,7 @@ def N10_commit_loop(ctx):
                 if t[0] == 'call' and callee_matches(t[1], 'is_aborted') and last[0].d['outcome'] == 'true':
                     ok = True
                 n = norm_cmp(last[0])
-                if n and n[0] in ('Ge', 'Le', 'Gt', 'Lt') and (mentions_field(n[2], 'block_size') or mentions_field(n[1], 'block_size')):
+                if n and n[0] in ('Ge', 'Le', 'Gt', 'Lt', 'Eq', 'Ne') and (mentions_field(n[2], 'block_size') or mentions_field(n[1], 'block_size')):
                     ok = True
             if not ok:
                 bad_exit.append(p)
